@@ -38,6 +38,8 @@ LEVEL = {
          'the cfg-probing macro_rules chain and rustc\'s own cfg evaluation are not modelled (the truth assignment is passed in)'),
  'C17': ('Theorems: create and destroy log exactly the handle concerned, once, in the right log; a failed or panicking destroy logs nothing (the push follows the overflow checks in the translated effect order); clear_events only clears; kernel-evaluated instances of the world-level iterator model with exact size_hint; events builds of the harness compared with the model at archetype and world level including size_hint before every next()',
          'the general induction for the world-level iterator over n archetypes is not yet proved (instances only)'),
+ 'C18': ('PARTIAL. Proved (kernel-evaluated over tables translated from the sources each run): no quote! template of any generator contains unsafe/no_mangle/export_name/link_section/extern/..., no format_ident! pattern other than the bare user name can spell one, the four handle types are Send+Sync for every component assignment and Copy, a storage/world is never Sync and Send iff its components are, the only unsafe impls are DataPtr\'s bounded ones. Validated with rustc as oracle: 14 minimal unsound programs (reference/view/borrow/iterator item/slice kept across a structural change, two &mut to one component, &mut Entity, world shared between threads, non-Send world sent) are rejected for the expected reason and their sound twins compile, all under #![forbid(unsafe_code)]; every expansion produced by the macro crate on generated inputs consists of template tokens, generated identifiers and user tokens',
+         'rustc\'s borrow checker and trait solver are the oracle, not modelled; the corpus is finite'),
  'C19': ('Every theorem quantifies over cfg = (wrapping, events, debug) and over the number of columns; isolating theorems: events only adds logs, wrapping only differs at the overflow boundary, debug assertions change exactly one lookup case; streams re-run on events / wrapping_version / 32_components / release builds with the model switched to the same configuration',
          'quick tier covers five of the sixteen feature x profile combinations, thorough all eight feature sets x two profiles'),
  'C14': ('Theorems over the bit-level codecs translated from entity.rs/index.rs/slot.rs on every run (all 2^32 keys, all ids, symbolic) plus differential runs of every conversion against the model',
